@@ -179,6 +179,19 @@ class EnumClause:
 
 
 @dataclass
+class FuzzClause:
+    """Coverage-guided byte-level campaign (atheris/libFuzzer) through the same oracle as a HypClause; parent-side."""
+
+    name: str
+    target: str  # property id understood by fuzz/target.py
+    oracle: Callable[[Any], Info]
+    quick: tuple = (2, 1500)  # (processes, runs per process)
+    thorough: tuple = (16, 120000)
+    max_len: int = 700
+    doc: str = ""
+
+
+@dataclass
 class Check:
     pid: str
     level: str
@@ -424,6 +437,8 @@ def run_check(check: Check, tier: str, seed: int, only_clauses: Iterable[str] | 
     scale = float(os.environ.get("VERIF_SCALE", "1"))
     jobs = []
     for ci, clause in enumerate(check.clauses):
+        if isinstance(clause, FuzzClause):
+            continue
         if isinstance(clause, HypClause):
             total = int((clause.quick if tier == "quick" else clause.thorough) * scale)
             shards = max(1, min(NPROC, total // 25 or 1))
@@ -465,6 +480,26 @@ def run_check(check: Check, tier: str, seed: int, only_clauses: Iterable[str] | 
             pc["wall"] += res["wall"]
             if res["failure"] is not None and pc["failure"] is None:
                 pc["failure"] = res["failure"]
+
+    for clause in check.clauses:
+        if not isinstance(clause, FuzzClause):
+            continue
+        from vlib import fuzzrun
+
+        nprocs, runs = clause.quick if tier == "quick" else clause.thorough
+        tf = time.time()
+        fr = fuzzrun.run_campaigns(clause.target, clause.oracle, nprocs, int(runs * scale), seed, clause.max_len, timeout_s=600 if tier == "quick" else 3 * 3600)
+        pc = per_clause[clause.name]
+        pc["evals"] = fr["executions"]
+        pc["classes"] = {"campaigns": fr["campaigns"], "unconfirmed-crash-files": fr["unconfirmed"]}
+        pc["samples"] = [{"engine": "atheris/libFuzzer", "campaigns": fr["campaigns"], "runs_per_campaign": int(runs * scale), "corpus": "empty and fixtures alternating", "notes": fr["notes"]}]
+        pc["wall"] = time.time() - tf
+        for case_enc, detail, sig in fr["violations"]:
+            if sig is not None and sig in known_sigs:
+                pc["excluded"][sig] = pc["excluded"].get(sig, 0) + 1
+                continue
+            if pc["failure"] is None:
+                pc["failure"] = (case_enc, detail, sig)
 
     for cname, pc in per_clause.items():
         if pc["failure"] is not None:
